@@ -299,6 +299,38 @@ pub fn run(ctx: &Ctx) -> Report {
             }
         }
     });
+    let mut crep = crep;
+    // axis-aligned arm postures (J1 on the base axes, links horizontal / vertical): there the three micro-shift directions
+    // of the recovery are not interchangeable, a shift along one base axis can be tangential to the arm
+    {
+        let h = PI / 2.0;
+        let aax: [Vec<f64>; 5] = [vec![0.0, h, -h, PI], vec![0.0, h, -h], vec![0.0, h, -h, PI], vec![0.0, 1.1, -2.0, 3.0, -0.4], vec![0.0, 2.5, -1.2, 0.7, -2.9]];
+        let arobots: Vec<Parameters> = crobots.iter().step_by(if thorough { 2 } else { 5 }).cloned().chain(presets().into_iter().map(|(_, p)| p)).collect();
+        let asizes: Vec<usize> = std::iter::once(arobots.len()).chain(aax.iter().map(|a| a.len())).chain(std::iter::once(3)).collect();
+        let an = par::product(&asizes);
+        let arep = par::run(an, |idx, r| {
+            let mut ix = [0usize; 7];
+            par::decode(idx, &asizes, &mut ix);
+            let p = &arobots[ix[0]];
+            let th = [aax[0][ix[1]], aax[1][ix[2]], aax[2][ix[3]], aax[3][ix[4]], 0.0, aax[4][ix[5]]];
+            let q = user_joints(p, &th);
+            let (d4, d6, centred) = [(0.0, 0.0, false), (0.3, -0.3, false), (0.0, 0.0, true)][ix[6]];
+            let c = ContCase { params: *p, q, d4, d6, centred };
+            match eval_cont(&c) {
+                Err(_) => r.skipped_precondition += 1,
+                Ok((fails, sig)) => {
+                    r.states += 1;
+                    r.transitions += 1;
+                    r.sig(format!("aligned:{sig}"));
+                    for (k, d) in fails {
+                        r.fail(format!("{k}/axis-aligned"), n + cn + idx, c.json(), d);
+                    }
+                }
+            }
+        });
+        rep.set("axis_aligned_points", json!({"qualifying": arep.states, "failing_a_precondition": arep.skipped_precondition, "robots": arobots.len()}));
+        crep.merge(arep);
+    }
     let cont_states = crep.states;
     let cont_skipped = crep.skipped_precondition;
     rep.merge(crep);
@@ -313,7 +345,7 @@ pub fn run(ctx: &Ctx) -> Report {
                 other joints x {bare, tool, base, frame}; oracle: angle between FK_ref axes 4 and 6 folded to [0,pi/2] < 0.01 deg <=> Some(A); band edge +-5% skipped. \
                 continuity: robots R x lattice with internal t5 = 0 exactly x previous = solution with J4/J6 perturbed, given explicitly or as CONSTRAINT_CENTERED on a robot whose constraint centres are that vector; preconditions (arm sensitivity to the \
                 0.125 um shifts < 0.4 urad, no other arm branch singular) computed by the oracle; expect previous first (2e-6) and a singular answer whose \
-                J4 and J6 moved together".into();
+                J4 and J6 moved together; the same on axis-aligned arm postures (J1 in {0, +-90, 180 deg}, J2 in {0, +-90}, J3 in {0, +-90, 180}) x 5 x 5 J4/J6 values incl. the bundled robots".into();
     rep.set("axes", json!({"detection_robots": robots.len(), "k": 7, "d": ds.len(), "other_joint_vectors": others.len(), "stacks": 4, "j5_lattice_frames": ["model angle", "raw joint value"],
         "continuity_robots": crobots.len(), "continuity_perturbations": perturb.len()}));
     rep.set("continuity_points", json!(cont_states));
